@@ -608,7 +608,10 @@ class meta_register:
     has_events = True
 
     def writes(c, self, payloads, flavour):
-        return [("all", f, lambda x: True) for f in HEAPS]
+        # containers change only when the payloads are QUEUED (no runner yet and not running); handing them to a runner, or discarding
+        # them while shutting down, writes nothing
+        idle = c.And(c.Not(self._runners.has(flavour)), c.Not(flag(self.running, "isset")))
+        return [("all", f, lambda x, idle=idle: idle) for f in HEAPS]
 
     def ensures(c, self, payloads, flavour):
         s0 = c.old(self)
@@ -683,15 +686,20 @@ class adopt:
         idle = c.And(c.Not(present), c.Not(flag(m0.running, "isset")))
         q1 = c.new(m0)._runner_queues[flavour]
         len0 = z3.If(m0._runner_queues.has(flavour), m0._runner_queues[flavour].len, 0)
-        e0 = c.event_at(0)
+        # the trace of adopt: the marker of its one call of MetaRunner.register_payload (that contract announces its calls), then what that call
+        # does - one `register_payload` event at the flavour's runner, or nothing
+        e0, e1 = c.event_at(0), c.event_at(1)
+        one_call = c.And(c.n_events() >= 1, Event.e_kind(e0) == c.ctx.E.event_kind("call"), Event.e_a(e0) == c.ctx.to_val(RUN + "meta_runner:MetaRunner.register_payload").t,
+                         Event.e_b(e0) == m0.t)
         return {
+            "exactly-one-call-of-the-meta-runners-register_payload": one_call,
             "running-runtime-the-bound-payload-goes-to-the-runner-of-the-requested-flavour-exactly-once": c.Implies(present, c.And(
-                c.n_events() == 1, Event.e_kind(e0) == c.ctx.E.event_kind("register_payload"), Event.e_a(e0) == runner.t,
-                _registered_object_ok(c, Event.e_b(e0), payload, args, kwargs))),
-            "before-start-nothing-is-started-yet": c.Implies(idle, c.no_events()),
+                c.n_events() == 2, Event.e_kind(e1) == c.ctx.E.event_kind("register_payload"), Event.e_a(e1) == runner.t,
+                _registered_object_ok(c, Event.e_b(e1), payload, args, kwargs))),
+            "before-start-nothing-is-started-yet": c.Implies(idle, c.n_events() == 1),
             "before-start-queued-exactly-once": c.Implies(idle, q1.len == len0 + 1),
             "before-start-the-bound-payload-is-what-is-queued-under-its-flavour": c.Implies(idle, _registered_object_ok(c, q1.item_term(len0), payload, args, kwargs)),
-            "discarded-only-while-shutting-down": c.Implies(c.And(c.Not(present), c.Not(idle)), c.no_events()),
+            "discarded-only-while-shutting-down": c.Implies(c.And(c.Not(present), c.Not(idle)), c.n_events() == 1),
         }
     # raises = {}
 
@@ -720,13 +728,14 @@ class unit_start:
         r0 = c.old(runner)
         fl = c.old(self).flavour
         present = r0._runners.has(fl)
-        e0 = c.event_at(0)
+        e0, e1 = c.event_at(0), c.event_at(1)       # e0: the marker of the one call of MetaRunner.register_payload (announced), e1: what it does
         alive = Z.Val.b(self._started.t)
         svc = Z.Val.b(c.old(self)._started.t)
         return {
             "started-flag-only-ever-rises": c.Implies(svc, alive),
             "a-started-unit-with-running-runtime-registered-its-run-method-exactly-once-in-its-flavour": c.Implies(
-                c.And(alive, c.Not(svc), present), c.And(c.n_events() == 1, Event.e_kind(e0) == c.ctx.E.event_kind("register_payload"), Event.e_a(e0) == r0._runners[fl].t)),
+                c.And(alive, c.Not(svc), present), c.And(c.n_events() == 2, Event.e_kind(e0) == c.ctx.E.event_kind("call"), Event.e_b(e0) == r0.t,
+                                                       Event.e_kind(e1) == c.ctx.E.event_kind("register_payload"), Event.e_a(e1) == r0._runners[fl].t)),
             "a-collected-service-is-skipped": c.Implies(c.And(c.Not(alive), c.Not(svc)), c.And(c.no_events(), *[c.ctx.rd(c.new_heap, f) == c.ctx.rd(c.old_heap, f) for f in HEAPS])),
         }
 
@@ -925,7 +934,8 @@ class unqueue_payloads:
 
     loops = {
         0: Loop(
-            inv=lambda c, L, i: {"same-queues-object": c.unchanged(L.self, "_runner_queues", "_runners", "running", "_logger")},
+            inv=lambda c, L, i: {"same-queues-object": c.unchanged(L.self, "_runner_queues", "_runners", "running", "_logger"),
+                                 "still-running": flag(L.self.running, "isset")},
             modifies=lambda c, L: [("trace",)] + [("all", f, lambda x: x != L.self._runner_queues.id) for f in ("$len", "$item")] + [("all", f, lambda x: x != L.self._runner_queues.id) for f in ("$mhas", "$mval")],
             local_types={"flavour": TAny(), "queue": QueueList},
             step=lambda c, L, L0: {
